@@ -147,6 +147,13 @@ def h_pack_race(at1: int, at2: int, k: int, what: str, late: bool = False) -> No
                     out['pack2'] = 'ran'
                 except F.FileStorageError as ex:
                     out['pack2'] = 'refused'
+                    # refused means: a pack is running - and goes on running undisturbed by the refusal.  The undo log is
+                    # not served during a pack ("Undo is currently disabled for database maintenance"):
+                    try:
+                        s.undoLog(0, 1)
+                        out['undolog'] = 'served'
+                    except UndoError:
+                        out['undolog'] = 'refused'
             ops = dict(commit=commit, undo=undo, read=read, pack2=pack2)
             if what == 'split':
                 sch.add(at1, vote_part, tid=1, name='vote')
@@ -176,6 +183,8 @@ def h_pack_race(at1: int, at2: int, k: int, what: str, late: bool = False) -> No
                 check(what == 'undo', 'pack failed because of a concurrent commit / read / second pack', type(pack_failed).__name__,
                       str(pack_failed)[:100])
             # ---- oracle ----
+            check(out.get('undolog') != 'served', 'after a second pack was refused the running pack is no longer treated as running '
+                                                   '(undoLog is served mid-pack, a further pack would be admitted)')
             check(not s._pack_is_in_progress, 'pack flag left set')
             check(not s._commit_lock.locked(), 'commit lock left held after pack')
             if 'read' in out:
